@@ -607,15 +607,22 @@ func (e *Enc) loopHead(fr *frame, b *ssa.BasicBlock, li *loopInfo, st *State, np
 			// candidate frame invariant (Houdini): the loop does not change
 			// locations that existed before the loop was entered.
 			id := fmt.Sprintf("%s|%s#%d|%s", funcDisplayName(e.top), fr.prefix, b.Index, k)
+			limit := preLoop.ap
+			if e.v.autoFrameOff[id] && e.entry != nil {
+				// weaker candidate: locations that existed when the function was
+				// entered (objects built by this function before the loop may change)
+				id += "|entry"
+				limit = e.entry.ap
+			}
 			if !e.v.autoFrameOff[id] && !e.frameWhole[k] && strings.HasPrefix(e.q.sortOfKey(k), "(Array Int ") {
 				r := e.q.freshBound("r")
 				e.v.declFun("broot", "(Int) Int")
-				guard := []string{"(< " + rootOf(r) + " " + preLoop.ap + ")"}
+				guard := []string{"(< " + rootOf(r) + " " + limit + ")"}
 				for _, idx := range e.frameAllowed[k] {
 					guard = append(guard, "(not (= "+r+" "+idx+"))")
 				}
 				st.assume(fmt.Sprintf("(forall ((%[1]s Int)) (! (=> %[2]s (= (select %[3]s %[1]s) (select %[4]s %[1]s))) :pattern ((select %[3]s %[1]s))))", r, and(guard...), st.get(k), pre))
-				fr.autoFrames[b] = append(fr.autoFrames[b], autoFrame{id: id, key: k, pre: pre, ap: preLoop.ap, except: e.frameAllowed[k]})
+				fr.autoFrames[b] = append(fr.autoFrames[b], autoFrame{id: id, key: k, pre: pre, ap: limit, except: e.frameAllowed[k]})
 			}
 		}
 		nap := e.q.fresh("ap", sortInt)
